@@ -360,7 +360,12 @@ def run_pairs(rep, K, tmp, pairs, secs):
                                                  'order': 'seg1.intersect(seg2)' if code == 2 else 'seg2.intersect(seg1)'}),
                       size)
             elif code == 5:
-                K.add('swap-asymmetry-%s' % (ic.arc_branch(d1, d2) if core == 'arc' else core),
+                skey = 'swap-asymmetry-%s' % (ic.arc_branch(d1, d2) if core == 'arc' else core)
+                if core == 'subdivision':
+                    # one operand order loses a crossing to the remove-while-iterating loop (same
+                    # cause as C12 subdivision-missed-crossing): pinned variant only
+                    skey = ic.pinned_key(skey, ic.detect_variants()['rm_fixed'])
+                K.add(skey,
                       'C11: seg1.intersect(seg2) and seg2.intersect(seg1) do not report the same crossings (%s, %s): %s vs %s'
                       % (lab, meta.get('config'), a12[:4], a21[:4]),
                       pair_replay(d1, d2, meta, {'r12': a12[:8], 'r21': a21[:8]}), size)
